@@ -62,11 +62,21 @@ func (r *connReader) initLZ4() status.Status {
 }
 
 // readLine reads and returns a single line delimited by \n, includes the delimiter.
-func (r *connReader) readLine() (string, status.Status) {
-	s, err := r.src.ReadString('\n')
-	if err != nil {
-		return "", mpxError(err)
+// The method reads at most max bytes, a longer line is returned incomplete, without the delimiter.
+func (r *connReader) readLine(max int) (string, status.Status) {
+	b := make([]byte, 0, max)
+	for len(b) < max {
+		c, err := r.src.ReadByte()
+		if err != nil {
+			return "", mpxError(err)
+		}
+
+		b = append(b, c)
+		if c == '\n' {
+			break
+		}
 	}
+	s := string(b)
 
 	if debug {
 		debugPrint(r.client, "<- line\t", strings.TrimSpace(s))
